@@ -23,7 +23,9 @@ RULE = ('random atomically balanced stoichiometries = rational null-space vector
         'unbalanced), every participating chemical as reactant (also product-side and `reactant=None`), X dyadic in '
         '[0,1] (few outside), 1-4 reactions as Reaction / ParallelReaction / SeriesReaction / ReactionSystem, defined '
         'by strings and dicts through the real parsers (phase-less and phase-tagged), mol and wt basis (setter), '
-        'applied to ndarrays, SparseVector/SparseArray, Streams and MultiStreams, same and other property package; '
+        'applied to ndarrays, SparseVector/SparseArray, Streams and MultiStreams, same and other property package '
+        '(superset, subset, permutation, equal-but-separately-compiled); ~30% of the cases derive the used reactions '
+        'through copy(basis=...) / copy + basis setter and apply the originals too; '
         'flows dyadic, mostly feasible, with limiting / clamp (-2^-45) / infeasible variants; a case is non-trivial '
         'when at least one call changed a flow; distinct = distinct op sequences')
 ASSUMPTIONS = [
@@ -59,6 +61,8 @@ PKG_DEF = {
     0: [0, 1, 2, 3, 4, 5, 6, 7, 8, 9, 10, 11],
     1: [13, 5, 0, 7, 12, 4, 1, 9, 6, 3, 10, 2, 8, 11],          # superset, shuffled
     2: [6, 5, 0, 4, 7, 10, 1, 2],                                # subset
+    3: [0, 1, 2, 3, 4, 5, 6, 7, 8, 9, 10, 11],                    # equal to 0 but separately compiled
+    4: [7, 3, 11, 0, 5, 9, 1, 10, 2, 8, 6, 4],                    # permutation of 0 (same size)
 }
 PHASE_SETS = ['gl', 'ls', 'gls']
 InfeasibleRegion = None
@@ -240,6 +244,22 @@ class World:
             e['obj'].basis = toks[2]
             e['recipe'].append(toks[2])
             return self.show_rxn(e['obj'], PKGS[e['pkg']]['chems'])
+        if op == 'show':
+            e = self.objs[toks[1]]
+            self.check_definition(toks[1], e, i, failures)
+            return self.show_rxn(e['obj'], PKGS[e['pkg']]['chems'])
+        if op == 'copybasis':
+            name, orig, b = toks[1], toks[2], toks[3]
+            e = self.objs[orig]
+            if kv(toks, 'how', 'copy') == 'copy':
+                new = e['obj'].copy(basis=b)
+            else:
+                new = e['obj'].copy(); new.basis = b
+            self.objs[name] = dict(obj=new, kind='single', members=[], pkg=e['pkg'], recipe=list(e['recipe']) + [b],
+                                   bal=e['bal'], alias=orig if 'alias' not in e else e['alias'])
+            # deriving a copy must leave the original as it was defined
+            self.check_definition(orig, e, i, failures)
+            return self.show_rxn(new, PKGS[e['pkg']]['chems'])
         if op in ('par', 'ser', 'sys'):
             name, ms = toks[1], toks[2].split(',')
             es = [self.objs[m] for m in ms]
@@ -253,6 +273,25 @@ class World:
         if op == 'call':
             return self.call(toks, i, failures)
         raise ValueError('unknown op ' + line)
+
+    def check_definition(self, name, e, i, failures):
+        """a single reaction still has the stoichiometry it was defined with (rescaled to its reactant)"""
+        intent = self.meta.get('intent', {}).get(e.get('alias', name))
+        rxn = e['obj']
+        if intent is None or rxn._basis != intent['basis'] or e['kind'] != 'single': return
+        c = np.array([[float(F(x)) for x in r] for r in intent['nu']], float)
+        ri = rxn._reactant_index
+        ri = (int(ri[0]), int(ri[1])) if rxn._phases else (0, int(ri))
+        nu = np.asarray(rxn._stoichiometry.to_array(), float)
+        nu = nu if nu.ndim == 2 else nu[None, :]
+        if nu.shape != c.shape or c[ri] == 0: return
+        exp = c / (-c[ri])
+        if np.abs(nu - exp).max() > 1e-9 * max(1., float(np.abs(exp).max())):
+            j = np.unravel_index(int(np.abs(nu - exp).argmax()), nu.shape)
+            failures.append({'signature': 'rxn:definition-changed', 'op_index': i,
+                             'what': f'the {rxn._basis}-basis reaction {name} now has coefficient {float(nu[j])!r} at '
+                                     f'{tuple(int(x) for x in j)} where its definition gives {float(exp[j])!r} '
+                                     f'(after deriving a copy in another basis)'})
 
     # ---- twins in the other basis -------------------------------------------------
     def twin(self, name):
@@ -326,7 +365,11 @@ class World:
                 react(mat)
             except Exception as ex:
                 ec = err_class(ex)
-                self.check_raise(obj, e, before, ec, fail, rchems, basis, array=True)
+                if ec == 'Infeasible' and not force:
+                    self.check_raise(obj, e, before, ec, fail, rchems, basis, array=True)
+                elif before.shape == (max(1, len(obj._phases)), rchems.size):
+                    fail('unexpected-exception', f'{type(ex).__name__}: {str(ex)[:120]} — on an array of the '
+                                                 f"object's own shape")
                 return 'err=' + ec
             after = np.asarray(mat.to_array() if how == 'sp' else mat, float)
             after = after if after.ndim == 2 else after[None, :]
@@ -349,9 +392,14 @@ class World:
             react(s)
         except Exception as ex:
             ec = err_class(ex)
-            if not other and (not obj._phases) == (len(ph) == 1):
-                vals = before * schems.MW if basis == 'wt' else before
-                self.check_raise(obj, e, vals, ec, fail, rchems, basis, array=False)
+            if self.in_quantifier(name, obj, ph, before, schems, rchems):
+                if ec == 'Infeasible' and not force:
+                    vals = self.to_package(before, schems, rchems)
+                    if basis == 'wt': vals = vals * rchems.MW
+                    self.check_raise(obj, e, vals, ec, fail, rchems, basis, array=False)
+                else:
+                    fail('unexpected-exception', f'{type(ex).__name__}: {str(ex)[:120]} — on a stream with matching '
+                         f'phases whose chemicals the reaction package knows (and vice versa)')
             return 'err=' + ec
         # layout intact?
         try:
@@ -375,8 +423,33 @@ class World:
             fail('phaseless-on-multistream', 'a reaction object without phases accepted a multi-phase stream and '
                  f'changed it (mass {mass_b!r} -> {mass_a!r}) instead of rejecting it')
         self.oracle(obj, e, name, schems, before, after, None, None, fail, basis, stream=(k, ph, rows),
-                    mass=(mass_b, mass_a), other=other, force=force)
+                    mass=(mass_b, mass_a), other=other, force=force, rchems=rchems)
         return 'out=' + frows(after)
+
+    @staticmethod
+    def to_package(rows, src, dst):
+        """rows laid out by Chemicals `src` moved to the layout of `dst` (by CAS); None if a non-zero flow has no place"""
+        out = np.zeros((rows.shape[0], dst.size))
+        index = {cas: j for j, cas in enumerate(dst.CASs)}
+        for j, cas in enumerate(src.CASs):
+            col = rows[:, j]
+            if cas in index: out[:, index[cas]] = col
+            elif col.any(): return None
+        return out
+
+    def in_quantifier(self, name, obj, ph, before, schems, rchems):
+        """the stream is one the property quantifies over for this object: matching phases, every flowing chemical
+        known to the reaction's package, every chemical the reactions touch known to the stream's package"""
+        if obj._phases:
+            if tuple(sorted(ph)) != tuple(obj._phases): return False
+        elif len(ph) != 1:
+            return False
+        if schems is rchems: return True
+        if self.to_package(before, schems, rchems) is None: return False
+        try:
+            return self.touched(name) <= set(schems.CASs)
+        except NoRef:
+            return False
 
     def expected_delta(self, obj, vals):
         """feed + what the real `conversion` reports (real code, array path), in the object's own layout"""
@@ -418,7 +491,7 @@ class World:
         return out
 
     def oracle(self, obj, e, name, chems, mol_b, mol_a, raw_b, raw_a, fail, basis, stream, mass=None, other=False,
-               force=False):
+               force=False, rchems=None):
         A = chems.formula_array
         MW = chems.MW
         scale = max(1., float(np.abs(mol_b).max()), float(np.abs(mol_a).max()))
@@ -435,8 +508,17 @@ class World:
         except NoRef:
             pass
         # the clauses about amounts are evaluated in the reaction's own layout and basis
-        if stream is not None and (other or (len(stream[1]) > 1) != bool(obj._phases)):
+        inq = stream is not None and self.in_quantifier(name, obj, stream[1], mol_b, chems, rchems)
+        if stream is not None and not inq:
             vals_b = vals_a = None
+        elif stream is not None and other:
+            # a stream of another package: the same flows, chemical by chemical, in the reaction's layout
+            vals_b = self.to_package(mol_b, chems, rchems)
+            vals_a = self.to_package(mol_a, chems, rchems)
+            if vals_a is None:
+                vals_b = None
+            elif basis == 'wt':
+                vals_b = vals_b * rchems.MW; vals_a = vals_a * rchems.MW
         elif stream is not None:
             vals_b = mol_b * MW if basis == 'wt' else mol_b
             vals_a = mol_a * MW if basis == 'wt' else mol_a
@@ -477,7 +559,7 @@ class World:
                 ri = obj._reactant_index
                 ri = (int(ri[0]), int(ri[1])) if obj._phases else (0, int(ri))
                 nr = vals_b[ri]
-                intent = self.meta.get('intent', {}).get(name)
+                intent = self.meta.get('intent', {}).get(e.get('alias', name))
                 d = vals_a - vals_b
                 if intent is not None and basis == intent['basis']:
                     c = np.array([[float(F(x)) for x in r] for r in intent['nu']], float)
@@ -524,7 +606,7 @@ class World:
             except Exception:
                 pass
         # 6. mol and wt basis act identically on a stream
-        if stream is not None and not other and (len(stream[1]) > 1) == bool(obj._phases):
+        if inq:
             tw = self.twin(name)
             if tw is not None:
                 k, ph, rows = stream
@@ -569,6 +651,9 @@ def run_impl(case: Case) -> ImplResult:
                 if e_ is not None:
                     if e_['pkg'] != int(kv(toks, 'pkg')): tags.add('call:stream-otherpkg')
                     tags.add('call:stream-' + e_['obj']._basis)
+            e_ = W.objs.get(toks[1]) if toks[1] in W.objs else None
+            if e_ is not None and e_.get('recipe') and len(e_['recipe']) > 1 and 'alias' in e_: tags.add('call:on-copy')
+            if any(v.get('alias') == toks[1] for v in W.objs.values()): tags.add('call:on-original-of-copy')
         elif toks[0] == 'rxn':
             tags.add('def:' + kv(toks, 'def'))
             if kv(toks, 'r') == 'auto': tags.add('reactant:auto')
@@ -886,7 +971,7 @@ def gen_case(rng):
     # ---- configuration
     multi = rng.random() < 0.35
     phases = rng.choice(PHASE_SETS) if multi else ''
-    rk = rng.choice([0, 0, 0, 1, 2])
+    rk = rng.choice([0, 0, 0, 0, 1, 2, 4])
     basis = 'wt' if rng.random() < 0.3 else 'mol'
     shape = rng.choices(['single', 'par', 'ser', 'sys'], [40, 20, 20, 20])[0]
     exact_bias = rng.random() < 0.6
@@ -896,9 +981,20 @@ def gen_case(rng):
     body = []
     names = []
     pts = []
+    origs = []
+    via_copy = rng.random() < 0.3
     def new_rxn(force_basis):
         name = f'r{len(names)}'
         names.append(name)
+        if via_copy and rng.random() < 0.7:
+            # define on the molar basis, derive the version that is used through `copy(basis=…)` (or a copy and
+            # the basis setter); the original must stay what it was defined to be and is applied as well
+            o, d, ru, X, pt = gen_rxn(rng, name, rk, phases, intent, None, exact_bias)
+            body.extend(o); defs.append((name, d, ru, X)); pts.append(pt)
+            body.append(f'copybasis {name}c {name} {force_basis or "mol"} how={rng.choice(["copy", "copy", "setter"])}')
+            body.append(f'show {name}')
+            origs.append((name, pt))
+            return name + 'c'
         o, d, ru, X, pt = gen_rxn(rng, name, rk, phases, intent, force_basis, exact_bias)
         body.extend(o); defs.append((name, d, ru, X)); pts.append(pt)
         return name
@@ -994,6 +1090,14 @@ def gen_case(rng):
                     if u not in rids and rng.random() < 0.08: rows[0][j] = float(rng.randrange(1, 9))
             ph = ''.join(sorted(srows_phases)) if srows_phases else rng.choice('lgs')
             calls.append(f'call {target} stream pkg={sk} ph={ph}{mode} rows={frows(rows)}')
+    if origs:
+        # the originals of the derived copies are applied too (same materials)
+        if shape == 'single':
+            calls = [c2 for c in calls for c2 in (c, c.replace(f'call {target} ', f'call {origs[0][0]} ', 1))]
+        else:
+            same = [o for o, pt in origs if pt == pts[0]]
+            if same:
+                calls = calls + [calls[0].replace(f'call {target} ', f'call {rng.choice(same)} ', 1)]
     ops = [f'pkg {k}' for k in used_pkgs] + body + calls
     return Case(ops, {'intent': intent})
 
@@ -1037,6 +1141,24 @@ def corpus():
         # phase-less reaction on a MultiStream; SparseArray argument
         Case(['pkg 0', 'rxn r0 pkg=0 basis=mol X=1/2 r=Water phases=- def=str | 2 Water -> 2 H2 + O2',
               'call r0 stream pkg=0 ph=gl rows=0,0,0,0,0,1,0,0,0,0,0,0;8,0,0,0,0,0,0,0,0,0,0,0']),
+        # wt-basis objects on streams of another package: equal but separately compiled, permuted, superset
+        Case(['pkg 0', 'pkg 3', 'pkg 4', 'pkg 1',
+              'rxn r0 pkg=0 basis=mol X=5/8 r=CH4 phases=- def=str | CH4 + 2O2 -> CO2 + 2H2O', 'setbasis r0 wt',
+              'rxn r1 pkg=0 basis=mol X=1/4 r=H2 phases=- def=str | 2H2 + O2 -> 2H2O', 'setbasis r1 wt',
+              'par p0 r0,r1', 'ser s0 r0,r1', 'sys y0 r0,r1',
+              'call r0 stream pkg=3 ph=g rows=3/2,0,0,0,0,20,4,5,0,0,0,0',
+              'call p0 stream pkg=3 ph=g rows=3/2,0,0,0,0,20,4,5,0,0,0,0',
+              'call r0 stream pkg=4 ph=g rows=5,0,0,3/2,20,0,0,0,0,0,4,0',
+              'call s0 stream pkg=4 ph=g rows=5,0,0,3/2,20,0,0,0,0,0,4,0',
+              'call r0 stream pkg=1 ph=g rows=0,20,3/2,5,0,0,0,0,4,0,0,0,0,0',
+              'call y0 stream pkg=1 ph=g rows=0,20,3/2,5,0,0,0,0,4,0,0,0,0,0']),
+        # a copy in the other basis leaves the original alone; both are applied
+        Case(['pkg 0', 'rxn r0 pkg=0 basis=mol X=1/2 r=CH4 phases=- def=str | CH4 + 2O2 -> CO2 + 2H2O',
+              'copybasis r0c r0 wt how=copy', 'show r0',
+              'call r0c stream pkg=0 ph=g rows=0,0,0,0,0,20,0,5,0,0,0,0',
+              'call r0 stream pkg=0 ph=g rows=0,0,0,0,0,20,0,5,0,0,0,0',
+              'call r0 arr as=nd rows=0,0,0,0,0,20,0,5,0,0,0,0'],
+             I(r0={'nu': [['2', '0', '0', '0', '1', '-2', '0', '-1', '0', '0', '0', '0']], 'basis': 'mol'})),
         # force_reaction with a negligible negative (alone, and next to a real one)
         Case(['pkg 0', 'rxn r0 pkg=0 basis=mol X=1 r=H2 phases=- def=str | 2 H2 + O2 -> 2 Water',
               'call r0 arr as=nd mode=force rows=5,0,0,0,0,35184372088831/35184372088832,4,0,0,0,0,0',
